@@ -48,7 +48,9 @@
 (*  C14:identical       identical image already at the target, yet a write *)
 (* C03 and C14 are evaluated on runs without injected fault, cancellation  *)
 (* or death (their quantifiers range over inputs, configurations and       *)
-(* schedules, not over faults); C04 on every run.                          *)
+(* schedules, not over faults); C14:get-present also on runs whose only    *)
+(* disturbances were transient faults below the retry limit; C04 on every  *)
+(* run.                                                                    *)
 (*                                                                         *)
 (* Reading of the statements where they leave room (see design.d):         *)
 (*  - a manifest's "children" are its descriptors (config, layers,         *)
@@ -236,6 +238,12 @@ C14Checks(s) ==
           "C14:retag">>,
         <<"C14", ident /\ ~On(hdr.force) /\ (nWrites > 0 \/ s # init0), "C14:identical">> >>
 
+\* "Never downloads from the source a blob that already exists in the target repository" also holds
+\* when the only disturbances were transient, retryable faults below the retry limit (hdr.transient):
+\* they have to be absorbed without changing what is transferred.
+Transient == hdr.transient = 1
+C14TChecks(s) == << <<"C14", \E b \in Range(gets) : b \in init0.b, "C14:get-present">> >>
+
 \* ImageCopy returned; s is the raw target store at that moment
 PResult(ok, s) ==
   LET w == written \cup (s.m \ init0.m)
@@ -260,7 +268,8 @@ PFinal(s) ==
      /\ tagMoved' = (tagMoved \/ Moved(s))
      /\ bad' = First(StoreChecks(s, w, new # {}) \o
                      << <<"C03", res = "ok" /\ FaultFree /\ ~Complete(s, init0, TRUE), "C03:incomplete">> >> \o
-                     (IF res = "ok" /\ FaultFree THEN C14Checks(s) ELSE <<>>))
+                     (IF res = "ok" /\ FaultFree THEN C14Checks(s)
+                      ELSE IF res = "ok" /\ Transient THEN C14TChecks(s) ELSE <<>>))
      /\ Same(<<hdr, mkind, edges, refs, dtags, init0, gets, commits, nBlobReq, nManPut, nWrites, res>>)
 
 \* the process died here; s is what it leaves behind
